@@ -57,6 +57,9 @@ var (
 
 	// Counters (reset by Reset).
 	NLock, NLockWait, NYield, NGosched atomic.Int64
+	// NRecursiveRLock counts read-lock acquisitions by a scheduler task that already holds the same
+	// lock for reading (legal until a writer queues up in between).
+	NRecursiveRLock atomic.Int64
 )
 
 // Reset forgets every lock waiter and counter. Call between runs (leaked goroutines of an
@@ -73,6 +76,7 @@ func Reset() {
 	NLockWait.Store(0)
 	NYield.Store(0)
 	NGosched.Store(0)
+	NRecursiveRLock.Store(0)
 }
 
 // Plain switches the shim to plain mode. Set it before any goroutine of the run exists and
@@ -248,7 +252,29 @@ func RLock(m tryRLocker, site string) {
 		m.(plainRLocker).RLock()
 		return
 	}
-	acquire(key(m), m.TryRLock, site, true)
+	k := key(m)
+	var t *Task
+	if s := cur.Load(); s != nil && goid() != s.mainG {
+		if t = s.taskOf(false); t != nil && t.rheld[k] > 0 {
+			// A task that reads-locks a lock it already holds for reading deadlocks as soon as a writer
+			// queues up in between (sync.RWMutex gives waiting writers precedence). That window is a few
+			// instructions wide; the scheduler widens it: the task is held back for a number of steps
+			// while others run, so that a writer, if the program has one, gets there. Which task runs is
+			// all this changes: every schedule it produces is one the program allows.
+			NRecursiveRLock.Add(1)
+			s.mu.Lock()
+			t.holdoff = 60
+			s.mu.Unlock()
+			s.yieldKnown(site)
+		}
+	}
+	acquire(k, m.TryRLock, site, true)
+	if t != nil {
+		if t.rheld == nil {
+			t.rheld = map[unsafe.Pointer]int{}
+		}
+		t.rheld[k]++
+	}
 }
 
 // RUnlock replaces X.RUnlock().
@@ -258,6 +284,11 @@ func RUnlock(m tryRLocker, site string) {
 		return
 	}
 	k := key(m)
+	if s := cur.Load(); s != nil && goid() != s.mainG {
+		if t := s.taskOf(false); t != nil && t.rheld[k] > 0 {
+			t.rheld[k]--
+		}
+	}
 	m.RUnlock()
 	release(k)
 	afterRelease(site)
@@ -340,6 +371,8 @@ type Task struct {
 	blocked string // non-empty: waiting for a webrtc lock, text describes it
 	resume  chan struct{}
 	prio    int
+	rheld   map[unsafe.Pointer]int // read locks this task holds (touched by the task's own goroutine only)
+	holdoff int                    // steps for which the scheduler prefers any other runnable task
 }
 
 // Step is one scheduling decision.
@@ -544,6 +577,23 @@ func (s *Sched) StepOnce() (progress bool) {
 	if len(p) == 0 {
 		s.mu.Unlock()
 		return false
+	}
+	if !s.strat.UseScr {
+		// tasks held back (see RLock) give way while anybody else can run
+		var q []*Task
+		for _, t := range p {
+			if t.holdoff > 0 {
+				t.holdoff--
+			} else {
+				q = append(q, t)
+			}
+		}
+		if len(q) > 0 {
+			if len(q) < len(p) && s.last != nil && s.last.parked && s.last.holdoff > 0 {
+				s.last = nil // (the held-back task is not "the running one" for the sticky / pct rules)
+			}
+			p = q
+		}
 	}
 	var pick *Task
 	lastParked := s.last != nil && s.last.parked
